@@ -433,12 +433,11 @@ Open Scope Z_scope.
 
 Ltac kernel_eq :=
   intros;
-  cbv beta delta [gen_lws gen_rws gen_win_length gen_left_win_start gen_right_win_stop gen_validate_window
+  cbv beta iota zeta delta [gen_lws gen_rws gen_win_length gen_left_win_start gen_right_win_stop gen_validate_window
                   gen_divisor_left gen_divisor_right gen_divisor_intra gen_overlap_left gen_overlap_intra
                   gen_overlap_right gen_hit gen_stop_step gen_length gen_windows
                   lws rws winlen lwstart rwstop div_left div_intra div_right ovl ovl_left ovl_intra ovl_right
                   hitb stop_step te_length];
-  cbv zeta;
   repeat match goal with
          | |- context [if ?c then _ else _] => let E := fresh "E" in destruct c eqn:E
          end;
